@@ -8,4 +8,6 @@ cd "$(dirname "$0")"
 python3 gen/c2gallina.py
 cd coq
 coq_makefile -f _CoqProject -o Makefile
-timeout 7200 make -j16
+# -k: one file that no longer builds must not keep the unrelated properties from being checked; every check
+# re-runs make on its own targets and reports a broken proof for its property
+timeout 7200 make -k -j16 || echo "setup: some Coq files failed to build; the checks that depend on them will report it"
